@@ -427,7 +427,7 @@ var apiGrid = []int{MinInt, MinInt + 1, -1000, -2, -1, 0, 1, 2, 3, 5, 99, 100, 1
 func genC16(tier string, r *Rng, emit func(Case)) {
 	reps := 30
 	if tier == "thorough" {
-		reps = 400
+		reps = 2000
 	}
 	for _, ver := range allVers {
 		for name := range apiTables[ver] {
